@@ -50,7 +50,7 @@ func genC04(t *rapid.T) *c04Case {
 			c.AlphClass = rapid.SampledFrom([]string{"noise", "gradient", "binary", "levels"}).Draw(t, "alphClass")
 		}
 	default:
-		c.Img = gen.DrawImg(t, gen.ImgCfg{MaxSide: max, Kinds: []string{"nrgba"}, Places: []string{"tight"}})
+		c.Img = gen.DrawImg(t, gen.ImgCfg{MaxSide: max, BigChance: 5, BigSide: 300, LargePermille: 8, ThinPermille: 8, Kinds: []string{"nrgba"}, Places: []string{"tight"}})
 		c.Quality = rapid.IntRange(0, 100).Draw(t, "q")
 	}
 	return c
